@@ -433,6 +433,22 @@ func runC17(c *ev.Ctx) {
 				fx.compare(c, base, got, frames, cs, false)
 				c.Count("deliveries_"+fx.pathName(), 1)
 			}
+			if okAll && fx.cr != nil {
+				// reads that return (0, nil) between the real ones: "nothing
+				// happened" in io.Reader's words, not the end of the stream
+				fx.cr.SetZeroReads(true)
+				for _, cs := range cutsets[:minI(len(cutsets), 12)] {
+					got, ok := fx.deliver(c, frames, cs, false)
+					c.Case(fmt.Sprintf("%s|%v|zero-reads", streamKey(frames), cs), true)
+					if !ok {
+						okAll = false
+						break
+					}
+					fx.compare(c, base, got, frames, cs, false)
+					c.Count("deliveries_with_zero_length_reads", 1)
+				}
+				fx.cr.SetZeroReads(false)
+			}
 			if okAll && total <= 4000 {
 				got, ok := fx.deliver(c, frames, nil, true)
 				c.Case(fmt.Sprintf("%s|one-byte|%v", streamKey(frames), socket), true)
